@@ -18,7 +18,7 @@ from harness.c01 import plain
 from harness.c02 import RngStub
 from harness.common import qualnames
 from vf.ob import Ob
-from vf.xh import I, B, Reject, pick
+from vf.xh import with_real_dicts, I, B, Reject, pick
 
 
 class _Jnp:
@@ -109,6 +109,7 @@ def _want_var_grads(fi, ct, x0, x1, k):
   return g
 
 
+@with_real_dicts
 def vjp_routing(fi, has_aux, w0, w1, c0, n0, x0, x1, k, ct):
   """lift.vjp: primal output, cotangents of exactly the selected collections and of
   every primal input, aux passed through, forward side effects published once"""
@@ -138,6 +139,7 @@ def vjp_routing(fi, has_aux, w0, w1, c0, n0, x0, x1, k, ct):
   return set(upd) == {'counter'} and Arr([n0 + 1], (1,)).same(upd['counter']['n'])
 
 
+@with_real_dicts
 def value_and_grad_routing(has_aux, w0, w1, c0, n0, x0, x1, k):
   """lift.value_and_grad: value and the gradient wrt every primal input (cotangent
   one); aux; side effects once"""
@@ -162,6 +164,7 @@ def value_and_grad_routing(has_aux, w0, w1, c0, n0, x0, x1, k):
   return set(upd) == {'counter'} and Arr([n0 + 1], (1,)).same(upd['counter']['n'])
 
 
+@with_real_dicts
 def jvp_routing(which, w0, w1, c0, n0, x0, x1, k, tw0, tw1, tc0, tx0, tx1, tk):
   """lift.jvp: tangent of the output for tangents of the inputs and of the selected
   variable collections; an empty tangent collection is dropped (which == 1); which
@@ -187,6 +190,7 @@ def jvp_routing(which, w0, w1, c0, n0, x0, x1, k, tw0, tw1, tc0, tx0, tx1, tk):
   return set(upd) == {'counter'} and Arr([n0 + 1], (1,)).same(upd['counter']['n'])
 
 
+@with_real_dicts
 def custom_vjp_rule(w0, w1, x0, x1, ct, nondiff):
   """lift.custom_vjp: the forward value is that of the original function; when it is
   differentiated the user's backward rule is used (a deliberately different one),
@@ -259,6 +263,7 @@ class Top(nn.Module):
     return nn.jvp(lambda m, x, k: m(x, k), lin, (x, k), (tx, tk), vt)
 
 
+@with_real_dicts
 def linen_wrappers(mode, fi, w0, w1, c0, n0, x0, x1, k, ct, tw0, tx0):
   """nn.vjp / nn.value_and_grad / nn.jvp on a sub-module: same routing, gradients
   addressed relative to the sub-module"""
